@@ -375,8 +375,9 @@ def api_binary(ctx, race=False, vfs=False):
     return go_test_binary(ctx, ".", ov, "api%s%s.test" % (".vfs" if vfs else "", ".race" if race else ""), race=race)
 
 
-def run_api(ctx, binp, cases, name="api", workers=8, timeout=3000):
-    """cases: list of dict(id, conf, steps=[step...], seed=[files]).  Returns {id: out}."""
+def run_api(ctx, binp, cases, name="api", workers=8, timeout=3000, race_log=None):
+    """cases: list of dict(id, conf, steps=[step...], seed=[files]).  Returns {id: out}.
+    race_log: path prefix for the race detector's reports (binary built with -race); its exit status is then not an error."""
     cf = os.path.join(ctx.work, name + ".cases.jsonl")
     of = os.path.join(ctx.work, name + ".out.jsonl")
     wd = os.path.join(ctx.work, name + ".tmp")
@@ -386,10 +387,12 @@ def run_api(ctx, binp, cases, name="api", workers=8, timeout=3000):
             fh.write(json.dumps(dict(id=c["id"], conf=c["conf"], seed=c.get("seed", []),
                                      steps=[s["impl"] for s in c["steps"]])) + "\n")
     env = dict(os.environ, VERIF_CASES=cf, VERIF_OUT=of, VERIF_WORKDIR=wd, VERIF_WORKERS=str(workers))
+    if race_log:
+        env["GORACE"] = "log_path=%s halt_on_error=0 history_size=3" % race_log
     rc, out = sh([binp, "-test.run", "TestVerifAPIDriver", "-test.count=1", "-test.timeout", "%ds" % timeout],
                  env=env, timeout=timeout + 60)
     shutil.rmtree(wd, ignore_errors=True)
-    if rc != 0:
+    if rc != 0 and not (race_log and os.path.exists(of)):
         raise BuildError("api driver failed (rc=%d):\n%s" % (rc, out[-3000:]))
     outs = {}
     for line in open(of):
